@@ -9,6 +9,8 @@ import (
 	"jsverif/internal/scanfsm"
 )
 
+var dumpers = map[string]func(c *Ctx){}
+
 // Dump prints engine internals for debugging the checker itself.
 func Dump(what string) {
 	p, err := prog.Load(false)
@@ -17,6 +19,10 @@ func Dump(what string) {
 		os.Exit(1)
 	}
 	c := &Ctx{R: obl.NewReport("dump", "quick"), P: p, an: map[string]*scanfsm.Analysis{}}
+	if d, ok := dumpers[what]; ok {
+		d(c)
+		return
+	}
 	switch what {
 	case "fsm":
 		m := c.Machine()
@@ -57,5 +63,15 @@ func Dump(what string) {
 				}
 			}
 		}
+	}
+}
+
+func init() {
+	dumpers["tables"] = func(c *Ctx) {
+		t := c.Tables()
+		for _, p := range t.Problems {
+			fmt.Fprintln(os.Stderr, "PROBLEM", p)
+		}
+		fmt.Println(t.DumpContextRef())
 	}
 }
